@@ -49,6 +49,13 @@ struct V<'a, 'b> {
 impl<'a, 'b> PwVisitor for V<'a, 'b> {
     type Out = Outcome;
     fn visit<T: Evaluate + Clone + std::fmt::Debug + 'static>(&mut self, pw: &Piecewise<T>, is_tag: bool) -> Outcome {
+        // the oracle uses the ends of the function that was actually built (composed kinds)
+        let built_ends: Vec<f64> = pw.segments.iter().map(|s| s.end).collect();
+        let _ = self.ends;
+        let ends_b: &[f64] = &built_ends;
+        if ends_b.is_empty() || ends_b.iter().any(|e| e.is_nan()) || ends_b.windows(2).any(|w| !(w[0] <= w[1])) {
+            fail!("a library constructor returned a piecewise function whose breakpoints are not well-formed: {:?}", ends_b);
+        }
         let xs = self.xs;
         let sorted = xs.windows(2).all(|w| w[0] <= w[1]);
         // laziness + order + length, pulling one output at a time
@@ -80,7 +87,7 @@ impl<'a, 'b> PwVisitor for V<'a, 'b> {
         let via_unsized: Vec<f64> = lib!(pw.evaluate_v(xs.to_vec().into_iter().filter(|_| true)).collect());
         for (name, v) in [("Vec", &via_vec), ("filter adaptor", &via_unsized)] {
             if v.len() != out.len() || v.iter().zip(&out).any(|(a, b)| !same_bits(*a, *b)) {
-                fail!("evaluate_v over the same arguments gives different results depending on the input iterator: as {name} {:?}, pulled one at a time {:?}; ends {:?}, arguments {:?}", v, out, self.ends, xs);
+                fail!("evaluate_v over the same arguments gives different results depending on the input iterator: as {name} {:?}, pulled one at a time {:?}; ends {:?}, arguments {:?}", v, out, ends_b, xs);
             }
         }
         // values
@@ -89,20 +96,20 @@ impl<'a, 'b> PwVisitor for V<'a, 'b> {
             if x > m {
                 m = x;
             }
-            let seg = select(self.ends, m);
+            let seg = select(ends_b, m);
             let want = lib!(pw.segments[seg].poly.evaluate(x));
             self.ctx.comparisons += 1;
             if !same_bits(out[i], want) {
                 fail!(
                     "evaluate_v output #{i} for x={} is {} but the segment direct evaluation selects for the running maximum {} is #{seg}, giving {}{}; ends {:?}, arguments {:?}",
-                    hex(x), hex(out[i]), hex(m), hex(want), if is_tag { " (tag pieces: value = segment used)" } else { "" }, self.ends, xs
+                    hex(x), hex(out[i]), hex(m), hex(want), if is_tag { " (tag pieces: value = segment used)" } else { "" }, ends_b, xs
                 );
             }
             if sorted {
                 let direct = lib!(pw.evaluate(x));
                 self.ctx.comparisons += 1;
                 if !same_bits(out[i], direct) {
-                    fail!("non-decreasing arguments: evaluate_v output #{i} for x={} is {} but Piecewise::evaluate gives {}; ends {:?}, arguments {:?}", hex(x), hex(out[i]), hex(direct), self.ends, xs);
+                    fail!("non-decreasing arguments: evaluate_v output #{i} for x={} is {} but Piecewise::evaluate gives {}; ends {:?}, arguments {:?}", hex(x), hex(out[i]), hex(direct), ends_b, xs);
                 }
             }
         }
@@ -121,7 +128,7 @@ fn check_case(c: &Case, ctx: &mut Ctx) -> Outcome {
     }
     let sorted = xs.windows(2).all(|w| w[0] <= w[1]);
     ctx.label(if sorted { "non-decreasing" } else { "arbitrary-order" });
-    ctx.label(KIND_NAMES[(c.pw.kind % 5) as usize]);
+    ctx.label(KIND_NAMES[(c.pw.kind % NKINDS) as usize]);
     if has_duplicates(&ends) {
         ctx.label("duplicate-ends");
     }
